@@ -25,7 +25,7 @@ META = {
             "printer sources on every run.",
     "technique": "Lean 4 proof over hand-written grammar model + per-input token-level correspondence + translation validation (byte equality, idempotence, V8)",
 }
-REQUIRED = ["unflatten_flatten", "parse_print", "print_idempotent"]
+REQUIRED = ["unflatten_flatten", "parse_print", "print_idempotent", "parse_wellformed", "print_parse_fixpoint"]
 
 TRIGGERS = ["export-func-separate", "start", "data-name", "i64.store-align2", "unnamed-func", "export-name-escape",
             "import-name-escape", "import-param-names", "type-param-names"]
